@@ -450,6 +450,16 @@ def evaluate(run, cases, metas, results, exe, stats):
             continue
         if mans[nq:] != res["image_files"]:
             dis.append("case %d: image file names differ: real %r model %r" % (cid, res["image_files"], mans[nq:]))
+        # the directory as the model sees it (Model.v store_images: a later write to the same name replaces the content)
+        # against the bytes really served
+        mstore = {}
+        for im, fname in zip(case["images"], mans[nq:]):
+            mstore[fname] = im["data"]
+        for q, a, b in zip(case["queries"], res["answers"], mans):
+            if q["q"] == "image" and isinstance(b, str) and b not in ("KeyError",) and a is not None and "exc" not in a:
+                if mstore.get(b) != a["data"]:
+                    dis.append("case %d query %s: bytes served %r, model directory holds %r under %r" % (cid, json.dumps(q), a["data"], mstore.get(b), b))
+                    break
         if len(run.samples) < 4 and meta["pages"] > 1 and case["images"]:
             run.sample({"site": case["site"], "ops": case["ops"][:2], "queries": case["queries"][:4], "answers": real[:4]})
     return dis
@@ -614,7 +624,7 @@ class Shrinker:
                 break
             (cur, cor), hit = cands[got[0]], got[1]
         # 3. the same characters deleted from every image title (and from the query, when it asks with the stored title)
-        if self.kind == "image" and len(cur["queries"]) == 1 and cur["queries"][0]["name"] in {im["title"] for im in cur["images"]}:
+        if self.kind in ("image", "exc") and len(cur["queries"]) == 1 and cur["queries"][0]["q"] == "image" and cur["queries"][0]["name"] in {im["title"] for im in cur["images"]}:
             cur, hit = self.shrink_image_titles(cur, cor, hit)
         return cur, cor, hit
 
@@ -696,7 +706,12 @@ def check(run):
                 "lines, texts starting with the separator tail, ending with a separator prefix, embedded fake headers) and random "
                 "Unicode, never containing the separator; redirects.json entries; 0-3 images with titles over the property's alphabet "
                 "(and a few outside it, tie only); queries by revid, by title, by 1-3 equivalent spellings (C12 grammar), through "
-                "redirects, image lookups by spelling.  distinct = distinct (site, ops, queries)")
+                "redirects, image lookups by spelling.  40% of the archives additionally hold a FAMILY of 2-5 long image titles (file "
+                "names of 24..255 characters, up to MediaWiki's 255-byte title limit and the 255-byte file-name limit) that share a "
+                "long prefix and differ only at the end / in the middle / at the start / in the extension, each image with its own "
+                "bytes; the monitor demands for every title (and its spellings) ITS OWN bytes.  Failing archives are minimised on the "
+                "real code (one query, unrelated pages/redirects/images dropped, the same characters deleted from all image titles). "
+                "distinct = distinct (site, ops, queries)")
     run.trusted = [
         "Coq 8.16.1 kernel (coqc); vm_compute in the Examples and the C12 table obligations",
         "extraction (ExtrOcamlBasic directives only) + ocaml/c14/driver.ml",
@@ -714,6 +729,10 @@ def check(run):
         "a page whose own text is a redirect (#REDIRECT [[..]]) is served by following it when asked by revision id: such texts are "
         "outside the by-revid round-trip claim (tie only)",
         "one revision id is written with one text (duplicates are re-deliveries of the same revision)",
+        "image titles are storable: the escaped file name fits into 255 bytes (a longer one cannot be created on the file systems "
+        "in use: open() fails at write time, nothing is stored); image titles whose LAST dot is followed by more than 190 "
+        "characters are not generated until /verif/fixes/C14-safe-link-extension.diff is in /repo (VERIF_C14_LONG_DOT_TAIL=1 "
+        "generates them: normalize_and_get_image_path raises OSError ENAMETOOLONG for the images/safe symlink)",
     ]
     src = core.snapshot(need_ext=True)
     ok = run.check_proofs("C14", gen=lambda: c12.generate(src), dirs=["C12"])
